@@ -358,3 +358,8 @@ def run(ck, prog, ctx):
     from engines import check_iterator_delegations
     check_iterator_delegations(ck, "SIBLING", prog, r"^src/stats/linkage/cluster\.rs$", floor=2)
     check_iterator_delegations(ck, "SIBLING", prog, r"^src/utils\.rs$")
+
+    # ---- accessors: a method named after a field returns that field, not a sibling of the same type
+    ck.rule("GETTER", "an accessor `f()` / `f_mut()` of a struct with a field `f` (or its documented alias) derives its result from that field (DESIGN 3.9)")
+    from engines import check_getters
+    check_getters(ck, "GETTER", prog, r"^src/stats/linkage/cluster\.rs$", floor=4)
